@@ -191,6 +191,10 @@ def run_harness(spec, tier):
             rc2, secs2, to2 = run_limited(kani_cmd(name, tdir, playback=True, cbmc_args=spec.get("cbmc_args", ())), pb_log, timeout * 2, max(spec["mem_gb"], 16))
             res["playback"] = parse_playback(open(pb_log, errors="replace").read())
             res["playback_s"] = round(secs2, 1)
+        # disk hygiene: every feature set leaves its own rmeta/goto artifacts (hundreds of MB per harness)
+        base = os.path.join(tdir, "kani", "x86_64-unknown-linux-gnu", "debug")
+        for sub in (os.path.join("build", "h8verif"), "incremental"):
+            shutil.rmtree(os.path.join(base, sub), ignore_errors=True)
     return res
 
 
